@@ -3,6 +3,7 @@ package keeper
 // Exported doors for the harnesses that live in package mhub2 (abci.go is there).
 
 import (
+	"github.com/ethereum/go-ethereum/common"
 	"math/big"
 
 	sdk "github.com/cosmos/cosmos-sdk/types"
@@ -73,4 +74,11 @@ func ZZHubValue(k Keeper, ctx sdk.Context, chain types.ChainID, e *types.SendToE
 	taken := new(big.Int).Add(e.Token.Amount.BigInt(), e.Fee.Amount.BigInt())
 	taken.Add(taken, e.ValCommission.Amount.BigInt())
 	return zzConv(zzDecimalsOf(k, ctx, chain, e.Token.ExternalTokenId), 18, taken)
+}
+
+func (k Keeper) ZZSetValidatorExternalAddress(ctx sdk.Context, chain types.ChainID, v sdk.ValAddress, a common.Address) {
+	k.setValidatorExternalAddress(ctx, chain, v, a)
+}
+func (o *ZZOracle) ZZSetPrice(denom string, p sdk.Dec) {
+	o.Prices = append(o.Prices, zzPrice{denom, p})
 }
